@@ -71,7 +71,12 @@ Definition spec_case (strict : bool) (c : case) : nat :=
   | Err EValidation, XInternal => 14
   | Ok tr, XOk stmts _ _ d =>
       match lower tr with
-      | Ok l => if flat_equiv_list l stmts then (if Z.eqb (spec_depth tr) d then 0 else 15) else 13
+      | Ok l => if flat_equiv_list l stmts
+                then (match c_ext c with
+                      | [] => if Z.eqb (spec_depth tr) d then 0 else 15
+                      | _ => 0      (* depth() takes no external_gates: nothing to compare *)
+                      end)
+                else 13
       | Err _ => 19
       end
   | Ok _, _ => 11
